@@ -41,14 +41,17 @@ CLAIMED = {
               "arguments; float floor/ceil assumed exact on the generated domain. 'plan_rechunk never raises' is checked, "
               "not proved.",
               "Coq proof over Gallina model of the planner (oracle arguments) + differential correspondence"),
-    "C16": _c("Coq theorems about a Gallina model of normalize_chunks/auto_chunks/blockdims_from_blockshape "
-              "(coq/Properties/C16.v): every accepted spec yields a valid layout for all oracle values; uniform sizes; zero "
-              "chunks only on empty axes unless written explicitly (refuted clause = known finding F4); auto byte limit under "
-              "the explicit k-th-root oracle hypothesis; " + _TIE + ".",
-              "5/C16", _TB + "the float `size` of auto_chunks is an oracle argument recomputed by the harness; the "
-              "previous_chunks branch of auto_chunks is not modelled (property-level checks only, with the configured "
-              "tolerance).",
-              "Coq proof over Gallina model + differential correspondence; previous_chunks branch by property oracle only"),
+    "C16": _c("Coq theorems about Gallina models of normalize_chunks/auto_chunks/blockdims_from_blockshape AND of the previous_chunks "
+              "branch of auto_chunks (coq/theories/AutoPrev*.v: multiplier / proposal rounds on explicit fuel, float proposals as oracle "
+              "arguments) (coq/Properties/C16.v, 24 obligations): every accepted spec yields a valid layout for all oracle values; uniform "
+              "sizes; zero chunks only on empty axes unless written explicitly (refuted clause = known finding F4); auto byte limit under the "
+              "explicit k-th-root oracle hypothesis; previous_chunks branch: valid layouts, fixed axes untouched, the byte bound limit x "
+              "tolerance under a checkable condition on the recorded proposals (refuted for zero-size previous chunks: finding C16-P1), "
+              "TERMINATION with an explicit fuel bound on safe inputs and a refutation for negative entries (the NaN multiplier never "
+              "settles: findings C16-P2 / C14-F26); " + _TIE + " (every real call runs under a recorder with a pass cap and a time limit).",
+              "5/C16", _TB + "the float `size` of auto_chunks and the per-pass proposals of the previous_chunks branch are oracle "
+              "arguments recorded from the running code (sys.settrace); recorded complex / infinite floats are outside the model.",
+              "Coq proof over Gallina model (incl. termination) + differential correspondence"),
     "C17": _c("Coq theorems about Gallina models of common_blockdim, coarse_blockdim, moved_fraction AND the per-index decision "
               "procedure of unify_chunks_expr (coq/theories/UnifyDecide.v: policy selection, cost-aware refusal of merges, realignment "
               "of interleaved layouts, size guard; float cost comparisons and set order are oracle arguments) (coq/Properties/C17.v): the "
@@ -226,12 +229,21 @@ CLAIMED.update({
               "block described); ChunksFreeze lowering restores the frozen layout or refuses; the grid-preservation gate accepts only "
               "chunk-preserving pushdowns; " + _TIE + " (real ArrayValuesDep payloads, ChunksFreeze.lower_once, _preserve_grid_contract); "
               "a recording block function checks every invocation under rewrites above/below.", "5/C20", _TB, "Coq proof over Gallina model + differential correspondence + instrumented function"),
-    "C21": _c("Coq (coq/Properties/C21.v, 22 obligations): a compiler-correctness proof of the records flattening (_Flattener/_records): "
-              "declared deps are exactly the embedded refs, lifted sub-keys are fresh, evaluating the flattened records equals evaluating "
-              "the source graph for every topological order, completeness iff the source graph is closed, shared-seen walks emit each layer "
-              "once and their union equals one walk.  Tie: real layers are reified and Coq checks flatten(input) = real records "
-              "structurally; real records are executed and compared block by block with __dask_graph__.", "5/C21",
-              _TB + "native Rust layers absent (generic translation + the pure-Python fused layer only).", "Coq compiler-correctness proof + structural correspondence + records executor"),
+    "C21": _c("Coq (coq/Properties/C21.v, 47 obligations): (1) a compiler-correctness proof of the generic records flattening "
+              "(_Flattener/_records): declared deps are exactly the embedded refs, lifted sub-keys are fresh, evaluating the flattened "
+              "records equals evaluating the source graph for every topological order, completeness iff the source graph is closed, "
+              "shared-seen walks emit each layer once and their union equals one walk; (2) a model of the pure-Python "
+              "FusedBlockwiseLayer fast paths (coq/theories/FusedFast.v: probe blocks, the probe-only independence test, analytical / "
+              "uniform / site-based / seed-lifting derivations): each fast path is SOUND when the per-block task really is shared with "
+              "affine slots / templated seeds for every block, the probe test is INCOMPLETE (refuted: a ragged interior block no probe "
+              "sees = finding C21-A), the set of positions the probes cover is characterised exactly and the test is proved sufficient "
+              "when every block-dependent literal takes on the covered positions all the values it takes.  Tie: real layers are reified "
+              "and Coq checks flatten(input) = real records structurally; for every FusedBlockwise node the real probes, the derivation "
+              "results and the set of blocks whose fast record differs from the slow one are compared with the model; real records are "
+              "executed and compared block by block with __dask_graph__.", "5/C21",
+              _TB + "native Rust layers absent (generic translation + the pure-Python fused layer only); _walk_sites is an observed "
+              "field (hypothesis fuse_wf, checked as a boolean on real families).",
+              "Coq compiler-correctness proof + fast-path model + structural correspondence + records executor"),
     "C23": _c("Coq (coq/Properties/C23.v): RNG seed-derivation state machine: a node's per-block seeds are fixed at construction, derived "
               "programs are functions of that realization, successive arrays get disjoint seeds, pickle carries the seeds.  Tie: real "
               "per-block SeedSequences compared with the model; recompute / rebuild / pickle / derived programs compared with the same "
